@@ -480,3 +480,114 @@ def native_values(ctx, rule, rel, qual, container_ctor=('DM', 'DataModelDict', '
                good, 'line %d stores %s as computed' % (s.lineno, norm(s.value)[:80]), node=s, key='%s store %s = %s' % (qual, norm(t.slice), norm(s.value)[:40]))
     _native_flow(fn, set(str_params), mod_funcs, on_store=on_store, containers=containers)
     ctx.floor(rule, len(seen), floor)
+
+
+# ----------------------------------------------------------------------------- MODULE-STATE
+_MUTABLE_CTORS = {'np.array', 'np.zeros', 'np.ones', 'np.empty', 'np.full', 'np.arange', 'np.identity', 'np.eye', 'np.asarray', 'list', 'dict', 'set', 'OrderedDict', 'DM', 'DataModelDict', 'defaultdict', 'bytearray'}
+_MUTATORS = {'append', 'extend', 'insert', 'remove', 'pop', 'clear', 'sort', 'reverse', 'update', 'setdefault', 'popitem', 'add', 'discard', 'fill', 'resize', 'put', 'itemset', 'partition'}
+
+
+def module_state_writes(mod):
+    """[(function node, statement, global name, how)]: a module-level array / list / dict / set written in place inside a function, directly or through a local name bound to it.
+    Such a write outlives the call: the next call (on another object, with other arguments) starts from what this one left behind."""
+    tops = {}
+    for st in mod.body:
+        if isinstance(st, ast.Assign) and len(st.targets) == 1 and isinstance(st.targets[0], ast.Name):
+            v = st.value
+            if isinstance(v, (ast.List, ast.Dict, ast.Set, ast.ListComp, ast.DictComp, ast.SetComp)) or (isinstance(v, ast.Call) and norm(v.func) in _MUTABLE_CTORS):
+                tops[st.targets[0].id] = st
+    out = []
+    if not tops:
+        return out
+    for fn in [x for x in ast.walk(mod) if isinstance(x, ast.FunctionDef)]:
+        declared = {n_ for st in walk_no_nested(fn) if isinstance(st, ast.Global) for n_ in st.names}
+        params = {a.arg for a in fn.args.posonlyargs + fn.args.args + fn.args.kwonlyargs}
+        locals_bound = {}
+        for st in walk_no_nested(fn):
+            if isinstance(st, ast.Assign):
+                for t in st.targets:
+                    if isinstance(t, ast.Name):
+                        locals_bound.setdefault(t.id, []).append(st.value)
+            elif isinstance(st, (ast.For, ast.With)):
+                pass
+        # local aliases: a local name every binding of which is the bare global (x = G); the global itself when it is not shadowed by a local binding / parameter
+        alias = {}
+        for name, vals in locals_bound.items():
+            if name in declared:
+                continue
+            srcs = {v.id for v in vals if isinstance(v, ast.Name) and v.id in tops and v.id not in params and v.id not in locals_bound}
+            if srcs and all(isinstance(v, ast.Name) and v.id in srcs for v in vals):
+                alias[name] = sorted(srcs)[0]
+        for g in tops:
+            if g not in params and (g not in locals_bound or g in declared):
+                alias.setdefault(g, g)
+        if not alias:
+            continue
+        for st in walk_no_nested(fn):
+            if isinstance(st, (ast.Assign, ast.AugAssign)):
+                for t in (st.targets if isinstance(st, ast.Assign) else [st.target]):
+                    base = t
+                    sub = False
+                    while isinstance(base, ast.Subscript):
+                        base, sub = base.value, True
+                    if isinstance(base, ast.Name) and base.id in alias and (sub or (isinstance(st, ast.AugAssign) and base.id not in declared)):
+                        out.append((fn, st, alias[base.id], 'stored into through %s' % base.id if sub else 'updated in place through %s' % base.id))
+            for c in ([st.value] if isinstance(st, ast.Expr) else []):
+                if isinstance(c, ast.Call) and isinstance(c.func, ast.Attribute) and isinstance(c.func.value, ast.Name) and c.func.value.id in alias and c.func.attr in _MUTATORS:
+                    out.append((fn, st, alias[c.func.value.id], '.%s() through %s' % (c.func.attr, c.func.value.id)))
+    return out
+
+
+def module_state(ctx, rule, rel, allowed=(), what='module-level arrays and containers are not written in place by functions (a write would carry over into the next call)'):
+    """MODULE-STATE: no function of the module writes in place into a module-level array / list / dict (state carried across calls, across objects).
+    `allowed`: names that are documented module state (rebuilt by a reset function)."""
+    mod = ctx.mod(rel)
+    hits = [h for h in module_state_writes(mod) if h[2] not in allowed]
+    for fn, st, g, how in hits:
+        ctx.ob(rule, '%s::%s' % (rel, fn.name), what, False, 'line %d: module-level %s is %s' % (st.lineno, g, how), node=st, key='module state %s %s' % (fn.name, g))
+    if not hits:
+        ctx.ob(rule, rel + '::*', what, True, node=mod.body[0] if mod.body else None, key='module state')
+
+
+DOCUMENTED_MODULE_STATE = {'dump_styles', 'failed_dump_styles', 'load_styles', 'failed_load_styles'}      # the style registries filled at import time
+
+
+def class_state_writes(mod):
+    """[(method, statement, 'Class.attr', how, 'class-level')]: a class-level mutable default (``items = []`` in the class body) that methods mutate in place through self
+    without any method ever binding a per-instance value in __init__ -- every instance shares the one object."""
+    out = []
+    for cls in [x for x in ast.walk(mod) if isinstance(x, ast.ClassDef)]:
+        defaults = {}
+        for st in cls.body:
+            tgt, val = None, None
+            if isinstance(st, ast.Assign) and len(st.targets) == 1 and isinstance(st.targets[0], ast.Name):
+                tgt, val = st.targets[0].id, st.value
+            elif isinstance(st, ast.AnnAssign) and isinstance(st.target, ast.Name) and st.value is not None:
+                tgt, val = st.target.id, st.value
+            if tgt and (isinstance(val, (ast.List, ast.Dict, ast.Set)) or (isinstance(val, ast.Call) and norm(val.func) in _MUTABLE_CTORS)):
+                defaults[tgt] = st
+        if not defaults:
+            continue
+        inits = [f for f in cls.body if isinstance(f, ast.FunctionDef) and f.name == '__init__']
+        bound_in_init = {t.attr for f in inits for st in ast.walk(f) if isinstance(st, (ast.Assign, ast.AnnAssign)) for t in (st.targets if isinstance(st, ast.Assign) else [st.target])
+                         if isinstance(t, ast.Attribute) and isinstance(t.value, ast.Name) and t.value.id == 'self'}
+        for name in defaults:
+            if name in bound_in_init:
+                continue
+            for f in [x for x in cls.body if isinstance(x, ast.FunctionDef)]:
+                for st in walk_no_nested(f):
+                    hit = None
+                    if isinstance(st, (ast.Assign, ast.AugAssign)):
+                        for t in (st.targets if isinstance(st, ast.Assign) else [st.target]):
+                            base, sub = t, False
+                            while isinstance(base, ast.Subscript):
+                                base, sub = base.value, True
+                            if isinstance(base, ast.Attribute) and isinstance(base.value, ast.Name) and base.value.id == 'self' and base.attr == name and (sub or isinstance(st, ast.AugAssign)):
+                                hit = 'written in place through self.%s' % name
+                    if isinstance(st, ast.Expr) and isinstance(st.value, ast.Call) and isinstance(st.value.func, ast.Attribute) and st.value.func.attr in _MUTATORS:
+                        b_ = st.value.func.value
+                        if isinstance(b_, ast.Attribute) and isinstance(b_.value, ast.Name) and b_.value.id == 'self' and b_.attr == name:
+                            hit = '.%s() through self.%s' % (st.value.func.attr, name)
+                    if hit:
+                        out.append((f, st, '%s.%s' % (cls.name, name), hit, 'class-level'))
+    return out
